@@ -18,6 +18,12 @@ STAGES = [
           # glibc heap consistency checks: a write before/after a heap block aborts at the next free() of that block
           # instead of corrupting the measuring process silently
           env={"MALLOC_CHECK_": "3", "MALLOC_PERTURB_": "165"}),
+    # grids LOADED from files with ntheta not a power of two (12, 20, 28, 40, 56, ...): the level count setup() reports must be
+    # admitted by the grid (added after the seeded change C18-b slipped through: generated grids are always 2^k in theta)
+    Stage("loaded-levels-asan", "p18b_loaded_levels", "asan", {"quick": 150, "thorough": 3000},
+          args={"scratch": os.path.join(_SCRATCH, "loaded")}, timeout_per_case=120.0, offset=20000000),
+    Stage("loaded-levels-plain", "p18b_loaded_levels", "plain", {"quick": 150, "thorough": 3000},
+          args={"scratch": os.path.join(_SCRATCH, "loaded")}, timeout_per_case=120.0, offset=30000000),
 ]
 
 # Numerical sub-checks are multiples of the unit round-off (2^-52) of the magnitude of the compared quantity.
@@ -46,6 +52,12 @@ THRESHOLDS = {
     "roundtrip_same_shape": 0.5,
     "roundtrip_excess_error": 64.0,           # (|loaded - written| - 0.5*10^-precision)_+ / (eps max(|x|, 10^-precision))
     "damaged_file_grid_is_valid": 0.5,
+    # --- stage loaded-levels
+    "loaded_grid_setup_succeeds": 0.5,        # a loaded grid that admits >= 2 levels is accepted by setup()
+    "too_few_levels_rejected": 0.5,
+    "levels_meet_minimal_sizes": 0.5,
+    "loaded_grid_matches_written": 1e-14,   # absolute difference (18 fixed decimals written; values <= 2 pi)
+    "solve_on_loaded_grid_finite": 0.5,
 }
 MIN_NONTRIVIAL = {"quick": 150, "thorough": 400}
 RULE = ("one case = one tuple from VERIF_SEED: Rmax in {1, 1.3, 2} or log-uniform 0.05..50, R0 = 1e-5 / (1e-8..0.95)*Rmax "
